@@ -275,6 +275,14 @@ def c19d(tree, ob):
         sched = [c for c in calls_in(fn) if call_name(c) == 'glib.idle_add' and c.args and src(c.args[0]).endswith('send_bundle')]
         clears = [n for n in walk_local(fn) if isinstance(n, ast.Assign) and src(n.targets[0]) == 'ctr.sender' and isinstance(n.value, ast.Constant) and n.value.value is None]
         truthy = [r for r in walk_local(fn) if isinstance(r, ast.Return) and isinstance(r.value, ast.Constant) and r.value.value is True]
+        if sched and clears:
+            # once the sender is cleared the step must interrupt the chain on every way out
+            fq = FuncView(tree, fm[0], fm[1].name + '.' + fn.name)
+            tn = {fq.node(r) for r in truthy}
+            if not truthy or not fq.cfg.must_pass(fq.node(clears[0]), fq.cfg.exit, tn, include_exc=False)[0]:
+                ob.violate(fm[0], fq.qual, 'ctr.sender = None ... (no return True)', 'the step that took over transmission (fragments scheduled, sender cleared) lets the chain go on: send_bundle then finds no '
+                           'sender and raises, and the bundle that was forwarded as fragments is reported deleted', clears[0])
+                continue
         if sched and clears and truthy:
             consumers.append((fm[0], fm[1].name + '.' + fn.name, fn))
             ob.site(fm[0], fn, 'TX step {} takes over transmission (schedules send_bundle, clears the sender, interrupts the chain)'.format(fn.name))
